@@ -78,6 +78,13 @@ def step (st : St) (op : List String) : Option (St × String) :=
     let c ← c.toNat?; let v ← v.toNat?
     let (st, _) := call st c v (if isStack v then Gen.LocalOps.stackRelease else Gen.LocalOps.localRelease) {}
     pure (st, "ok")
+  | ["cleanup", c] => do
+    -- LocalManager.cleanup: release_local on every managed local
+    let c ← c.toNat?
+    let (st, _) := call st c 0 Gen.LocalOps.localRelease {}
+    let (st, _) := call st c 1 Gen.LocalOps.stackRelease {}
+    let (st, _) := call st c 2 Gen.LocalOps.localRelease {}
+    pure (st, "ok")
   | ["spawn", p] => do
     let p ← p.toNat?
     pure ({ st with w := stepEvent st.w (.copyCtx p) }, s!"ctx{st.w.nctx}")
